@@ -81,7 +81,7 @@ Proof.
        i = Z.of_nat k /\ (1 <= k <= n)%nat /\ length out = n /\ skipn k out = skipn k (x :: r) /\
        s :: Ops.add_digit_carry w r c0 = firstn k out ++ Ops.add_digit_carry w (skipn k (x :: r)) carry).
   - intros k [[out carry] i] (-> & Hk & Hlen & Hsk & Heq) Hc.
-    apply andb_true_iff in Hc. destruct Hc as [Hc ->]. rewrite ltb_of_nat in Hc. apply Nat.ltb_lt in Hc.
+    apply andb_true_iff in Hc. destruct Hc as [Hc ->]. cond_true_in Hc.
     split; [exact Hc|]. rewrite arr_get_nat by lia. cbn [bind].
     assert (Hd : nth k out 0 = nth k (x :: r) 0).
     { pose proof (nth_skipn_add out k 0) as H1. pose proof (nth_skipn_add (x :: r) k 0) as H2.
@@ -95,7 +95,7 @@ Proof.
     rewrite Heq. rewrite firstn_S_list_set by lia. rewrite <- app_assoc. reflexivity.
   - intros k [[out carry] i] (-> & Hk & Hlen & Hsk & Heq) Hc.
     rewrite Heq. apply andb_false_iff in Hc. destruct Hc as [Hc | ->].
-    + rewrite ltb_of_nat in Hc. apply Nat.ltb_ge in Hc.
+    + cond_false_in Hc.
       rewrite skipn_all2 by (cbn [length]; lia). cbn [Ops.add_digit_carry].
       rewrite app_nil_r, firstn_all2 by lia. reflexivity.
     + rewrite add_digit_carry_false, <- Hsk, firstn_skipn. reflexivity.
